@@ -74,6 +74,7 @@ Lemma join_keys_nonempty_ok acc keys acc' : acc_ok acc -> add_keys acc keys = So
 Proof.
   intros (Ht & Hs & Hl) H. unfold add_keys in H. destruct keys as [|k ks]; [inversion H; subst; repeat split; auto|].
   cbv zeta in H. set (jk := join_keys (k :: ks)) in *. clearbody jk.
+  destruct (length jk =? 0)%nat eqn:Ez; [discriminate|].
   destruct (max_key_length <? N.of_nat (length jk)) eqn:El; [discriminate|].
   destruct (lookupS (s2l "=") operators_table) as [eqc|] eqn:Eo; [|discriminate]. inversion H; subst.
   destruct limits as [L1 _]. rewrite L1 in El. unfold acc_ok. cbn [fst snd]. split; [|split].
